@@ -367,3 +367,30 @@ Example C09_translated_example :
     = Ok [[97; 36; 49]; [97]] /\
   ReproGen.g_extract [] [([97; 47; 46; 46], CBytes [1])] [] = ReproGen.Raise ReproGen.AssertionError.
 Proof. repeat split; vm_compute; reflexivity. Qed.
+
+(* ---------------------------------------------------------------------------------------------------------------
+   Converting / simulating the SAME design object twice (Model/DomScope.v, second part; proofs Proofs/DomScopeP.v):
+   Fragment.prepare deletes exactly the domain entries it added to the fragments of the hierarchy, so a fragment
+   object the user holds (an Instance) is left as it was found, and a second preparation — whose auto-created
+   domains are new objects — resolves every name as a first one would. *)
+From V.Model Require DomScope.
+From V.Proofs Require DomScopeP.
+
+Theorem C09_prepare_leaves_user_fragments_unchanged : forall own parent,
+  DomScope.after_prepare own parent = own.
+Proof. exact DomScopeP.after_prepare_restores. Qed.
+Print Assumptions C09_prepare_leaves_user_fragments_unchanged.
+
+Theorem C09_second_prepare_like_first : forall own parent1 parent2 n,
+  DomScope.dlookup (DomScope.second_table own parent1 parent2) n
+  = DomScope.dlookup (DomScope.dmerge own parent2) n.
+Proof. exact DomScopeP.second_prepare_like_first. Qed.
+Print Assumptions C09_second_prepare_like_first.
+
+(* the defect that was repaired (finding C09-prepare-leaves-propagated-domains): the propagated entry of the first
+   conversion (object 7) shadows the domain the second conversion creates (object 8) *)
+Theorem C09_second_prepare_leaky_refuted :
+  DomScope.dlookup (DomScope.second_table_leaky nil ((0, 7) :: nil) ((0, 8) :: nil))%nat 0%nat = Some 7%nat /\
+  DomScope.dlookup (DomScope.dmerge nil ((0, 8) :: nil))%nat 0%nat = Some 8%nat.
+Proof. exact DomScopeP.second_prepare_leaky_refuted. Qed.
+Print Assumptions C09_second_prepare_leaky_refuted.
